@@ -13,7 +13,7 @@ BOUNDS = {
     "thorough": "holes of length 0..3 (2 in netloc positions) x quoted x strip_fragment; transformations around holes of length 0..3",
 }
 TRUSTED = ["pysx engine", "z3 (no oracle: the assertions relate calls of the real function)"]
-ASSUMPTIONS = ["punycode vs Unicode spelling of hosts is not decided (idna codec is C code)", "non-ASCII symbolic netloc characters cut (NFKC check is C code)",
+ASSUMPTIONS = ["punycode vs Unicode spelling of hosts is not decided (idna codec is C code)", "urlsplit's NFKC check modelled exactly (see C01)",
                "holes longer than the bound are outside the claim"]
 
 
